@@ -128,3 +128,162 @@ Proof.
   - apply check_cmd_fixed_perm; assumption.
   - apply check_cmd_current_perm; assumption.
 Qed.
+
+(* ------------------------------------------------------------------ knut balance: up to the report *)
+From Knut Require Import Model.Report Proofs.OrderPipeline.
+
+(* balanceRunner.execute up to the days that reach Query.Into: check, prices, valuate, filter,
+   close -- the text of [Cli.balance_report] without its last stage *)
+Definition balance_days (cfg : balance_cfg) (ds : list sdirective) : cresult (list day * partition) :=
+  cbind (match bc_valuation cfg with
+         | Some v => if valid_commodity v then COk tt else CErr k_valuation v
+         | None => COk tt end) (fun _ =>
+  cbind (load ds) (fun b =>
+  cbind (cfg_partition cfg b) (fun part =>
+  let b := if bc_close cfg then builder_touch b (start_dates part) else b in
+  let days := b_days b in
+  cbind (run_stage (check_proc_current (bc_lenient cfg)) check_init days) (fun r1 =>
+  cbind (match bc_valuation cfg with
+         | Some v =>
+           cbind (run_stage (compute_prices_proc v) (mkCp [] None) (snd r1)) (fun r2 =>
+           cbind (run_stage (valuate_proc v) (mkVal None None []) (snd r2)) (fun r3 => COk (snd r3)))
+         | None => COk (snd r1)
+         end) (fun days =>
+  cbind (run_stage (filter_proc (span part)) tt days) (fun r4 =>
+  cbind (if bc_close cfg
+         then cbind (run_stage (close_proc (start_dates part)) (mkClose [] []) (snd r4)) (fun r5 => COk (snd r5))
+         else COk (snd r4)) (fun days => COk (days, part)))))))).
+
+Lemma balance_report_days cfg ds :
+  balance_report cfg ds =
+  cbind (balance_days cfg ds) (fun dp =>
+  cbind (run_stage (query_proc (balance_query cfg (snd dp)) report_insert) new_report (fst dp)) (fun r6 =>
+  COk (fst r6, snd dp))).
+Proof.
+  unfold balance_report, balance_days.
+  destruct (match bc_valuation cfg with Some v => if valid_commodity v then COk tt else CErr k_valuation v | None => COk tt end);
+    cbn [cbind]; try reflexivity.
+  destruct (load ds) as [b| |]; cbn [cbind]; try reflexivity.
+  destruct (cfg_partition cfg b) as [part| |]; cbn [cbind]; try reflexivity.
+  cbv zeta.
+  destruct (run_stage (check_proc_current (bc_lenient cfg)) check_init _) as [r1| |]; cbn [cbind]; try reflexivity.
+  destruct (match bc_valuation cfg with Some v => _ | None => COk (snd r1) end) as [days| |]; cbn [cbind]; try reflexivity.
+  destruct (run_stage (filter_proc (span part)) tt days) as [r4| |]; cbn [cbind]; try reflexivity.
+  destruct (if bc_close cfg then _ else COk (snd r4)) as [days'| |]; cbn [cbind]; reflexivity.
+Qed.
+
+(* the property's exclusion, on the syntax-level list *)
+Definition no_conflicting_prices (sds : list sdirective) : Prop :=
+  forall d c p t c' p' t', In (SPrice d c p t) sds -> In (SPrice d c' p' t') sds ->
+    same_pair (c, p, t) (c', p', t') -> (c, p, t) = (c', p', t').
+
+Lemma parse_price_origin sds : forall ds d c p t,
+  parse_directives sds = MOk ds -> In (DPrice d c p t) ds -> In (SPrice d c p t) sds.
+Proof.
+  induction sds as [|s sds IH]; intros ds d c p t H Hin; cbn [parse_directives] in H.
+  - inversion H; subst. destruct Hin.
+  - destruct (parse_directive s) as [o| |] eqn:Es; cbn [mbind] in H; try discriminate.
+    destruct (parse_directives sds) as [o'| |] eqn:El; cbn [mbind] in H; try discriminate.
+    inversion H; subst ds. apply in_app_or in Hin. destruct Hin as [Hin|Hin]; [|right; eapply IH; [reflexivity|exact Hin]].
+    left. destruct s; cbn [parse_directive] in Es.
+    + inversion Es; subst o. destruct Hin as [E|[]]. inversion E; subst. reflexivity.
+    + destruct (check_account acc); cbn [mbind] in Es; try discriminate. inversion Es; subst o. destruct Hin as [E|[]]. discriminate.
+    + destruct (check_account acc); cbn [mbind] in Es; try discriminate. inversion Es; subst o. destruct Hin as [E|[]]. discriminate.
+    + destruct (check_balances bals); cbn [mbind] in Es; try discriminate. inversion Es; subst o. destruct Hin as [E|[]]. discriminate.
+    + destruct (txn_create t0); cbn [mbind] in Es; try discriminate. inversion Es; subst o.
+      apply in_map_iff in Hin. destruct Hin as [x [E _]]. discriminate.
+    + inversion Es; subst o. destruct Hin.
+Qed.
+
+Lemma builder_prices_consistent sds ds :
+  no_conflicting_prices sds -> parse_directives sds = MOk ds ->
+  Forall (fun x => prices_consistent (d_prices x)) (b_days (builder_of ds)).
+Proof.
+  intros Hn Hp. apply Forall_forall. intros x Hx.
+  destruct (builder_canonical ds) as (_ & _ & _ & M). destruct (M x Hx) as (M0 & _).
+  assert (K : forall y, In y (d_prices x) -> In (SPrice (d_date x) (fst (fst y)) (snd (fst y)) (snd y)) sds).
+  { intros y Hy. eapply parse_price_origin; [exact Hp|].
+    assert (H : In (price_directive (d_date x) y) (map (price_directive (d_date x)) (d_prices x))) by (apply in_map; exact Hy).
+    rewrite M0 in H. apply sel_in in H. apply H. }
+  intros [[c p] t] [[c' p'] t'] H1 H2 Hs. apply (Hn (d_date x)); [apply (K _ H1)|apply (K _ H2)|exact Hs].
+Qed.
+
+Lemma touch_prices_consistent b dates :
+  Forall (fun x => prices_consistent (d_prices x)) (b_days b) ->
+  Forall (fun x => prices_consistent (d_prices x)) (b_days (builder_touch b dates)).
+Proof.
+  unfold builder_touch. cbn [b_days]. generalize (b_days b).
+  induction dates as [|d dates IH]; intros l H; cbn [fold_left]; [exact H|].
+  apply IH. apply Forall_forall. apply upd_day_all.
+  - apply Forall_forall. exact H.
+  - auto.
+  - intros x y [].
+Qed.
+
+Lemma touch_accs_ok b dates : Forall day_accs_ok (b_days b) -> Forall day_accs_ok (b_days (builder_touch b dates)).
+Proof.
+  unfold builder_touch. cbn [b_days]. generalize (b_days b).
+  induction dates as [|d dates IH]; intros l H; cbn [fold_left]; [exact H|].
+  apply IH. apply Forall_forall. apply upd_day_all.
+  - apply Forall_forall. exact H.
+  - auto.
+  - intros t p [].
+Qed.
+
+Lemma Forall2_DIok_split l1 l2 : Forall2 DIok l1 l2 -> Forall2 day_equiv l1 l2 /\ Forall day_accs_ok l1.
+Proof. induction 1 as [|a b l1 l2 [H1 H2] Hl [IH1 IH2]]; split; constructor; assumption. Qed.
+
+Lemma Forall2_DIok_join l1 l2 : Forall2 day_equiv l1 l2 -> Forall day_accs_ok l1 -> Forall2 DIok l1 l2.
+Proof. intros H1 H2. apply Forall2_and_l; assumption. Qed.
+
+Lemma cfg_partition_equiv cfg b1 b2 : b_min b1 = b_min b2 -> b_max b1 = b_max b2 -> cfg_partition cfg b1 = cfg_partition cfg b2.
+Proof. intros H1 H2. unfold cfg_partition, builder_period. rewrite H1, H2. reflexivity. Qed.
+
+(* the days that reach the report: same dates, same normalized prices, the transactions of each
+   day (with their values, the value adjustments and the closing transactions) permuted *)
+Theorem balance_days_perm cfg sds1 sds2 :
+  Permutation sds1 sds2 -> sd_syntactic sds1 -> no_conflicting_prices sds1 ->
+  ceq (fun a b => Forall2 DIok (fst a) (fst b) /\ snd a = snd b) (balance_days cfg sds1) (balance_days cfg sds2).
+Proof.
+  intros P Hs Hn. unfold balance_days.
+  destruct (match bc_valuation cfg with Some v => if valid_commodity v then COk tt else CErr k_valuation v | None => COk tt end);
+    cbn [cbind ceq]; try exact I.
+  (* load, with the price condition *)
+  assert (L : ceq (fun b1 b2 => builders_equiv b1 b2 /\ Forall (fun x => prices_consistent (d_prices x)) (b_days b1))
+                  (load sds1) (load sds2)).
+  { pose proof (load_perm sds1 sds2 P Hs) as H. unfold load in *.
+    destruct (parse_directives sds1) as [ds1| |] eqn:E1, (parse_directives sds2) as [ds2| |]; cbn in *; try tauto.
+    split; [exact H|]. eapply builder_prices_consistent; eassumption. }
+  eapply ceq_bind; [exact L|]. intros b1 b2 [(HF & Hmin & Hmax) Hpc].
+  rewrite (cfg_partition_equiv cfg b1 b2 Hmin Hmax).
+  destruct (cfg_partition cfg b2) as [part| |]; cbn [cbind ceq]; try exact I. cbv zeta.
+  set (c1 := if bc_close cfg then builder_touch b1 (start_dates part) else b1).
+  set (c2 := if bc_close cfg then builder_touch b2 (start_dates part) else b2).
+  assert (HF' : Forall2 DIok (b_days c1) (b_days c2)).
+  { unfold c1, c2. destruct (bc_close cfg); [|exact HF].
+    destruct (Forall2_DIok_split _ _ HF) as [A B].
+    apply Forall2_DIok_join; [apply builder_touch_equiv; exact A|apply touch_accs_ok; exact B]. }
+  assert (Hpc' : Forall (fun x => prices_consistent (d_prices x)) (b_days c1)).
+  { unfold c1. destruct (bc_close cfg); [apply touch_prices_consistent|]; exact Hpc. }
+  eapply ceq_bind; [apply check_stage_current; exact HF'|].
+  intros [s1 r1] [s2 r2] [E1 E2]. cbn [fst snd] in *. subst r1 r2.
+  eapply ceq_bind.
+  { instantiate (1 := fun l1 l2 => Forall2 DIok l1 l2).
+    destruct (bc_valuation cfg) as [v|]; [|exact HF'].
+    eapply ceq_bind.
+    - unfold run_stage. apply ceq_of_presult. apply cp_stage_rel. apply Forall2_and_l; assumption.
+    - intros [u1 q1] [u2 q2] [_ Hq]. cbn [fst snd] in *.
+      eapply ceq_bind.
+      + unfold run_stage. apply ceq_of_presult. apply val_stage_rel; [intros k0 a0 c0 q0 []|exact Hq].
+      + intros [w1 z1] [w2 z2] [_ Hz]. cbn [fst snd ceq] in *. exact Hz. }
+  intros l1 l2 Hl. eapply ceq_bind.
+  { unfold run_stage. apply ceq_of_presult. apply filter_stage_rel. exact Hl. }
+  intros [u1 q1] [u2 q2] [_ Hq]. cbn [fst snd] in *.
+  eapply ceq_bind.
+  { instantiate (1 := fun l1 l2 => Forall2 DIok l1 l2).
+    destruct (bc_close cfg); [|exact Hq].
+    eapply ceq_bind.
+    - unfold run_stage. apply ceq_of_presult. apply close_stage_rel; [intros k0 a0 c0 q0 []|exact Hq].
+    - intros [w1 z1] [w2 z2] [_ Hz]. cbn [fst snd ceq] in *. exact Hz. }
+  intros m1 m2 Hm. cbn [ceq fst snd]. split; [exact Hm|reflexivity].
+Qed.
